@@ -56,7 +56,7 @@ fn new_child(kind: FdKind, int: Int, md: Md) -> (FdX, FdChild) {
     let raw = src.as_raw_fd();
     (
         FdX::owned(src),
-        FdChild { src_raw: raw, peer: Some(peer), kind, int, md, armed: false, edge_pending: false, modified_at: 0, cbs: 0, child: ChildSt::Kept, child_pending: ChildSt::Kept },
+        FdChild { src_raw: raw, peer: Some(peer), kind, int, md, armed: false, edge_pending: false, modified_at: 0, rereg_at: 0, cbs: 0, child: ChildSt::Kept, child_pending: ChildSt::Kept },
     )
 }
 
@@ -100,25 +100,25 @@ fn build_inner(uid: Uid, spec: &SourceSpec, s: &mut Src, dup_of: Option<i32>, gi
                 None if given.is_some() => {
                     let (f, p) = given.unwrap();
                     let raw = f.raw;
-                    (f, FdChild { src_raw: raw, peer: p, kind: *fd, int: *int, md: *md, armed: false, edge_pending: false, modified_at: 0, cbs: 0, child: ChildSt::Kept, child_pending: ChildSt::Kept })
+                    (f, FdChild { src_raw: raw, peer: p, kind: *fd, int: *int, md: *md, armed: false, edge_pending: false, modified_at: 0, rereg_at: 0, cbs: 0, child: ChildSt::Kept, child_pending: ChildSt::Kept })
                 }
                 None => new_child(*fd, *int, *md),
                 Some(BadFd::RegularFile) => {
                     let f = regular_file();
                     let raw = f.as_raw_fd();
-                    (FdX::owned(f), FdChild { src_raw: raw, peer: None, kind: *fd, int: *int, md: *md, armed: false, edge_pending: false, modified_at: 0, cbs: 0, child: ChildSt::Kept, child_pending: ChildSt::Kept })
+                    (FdX::owned(f), FdChild { src_raw: raw, peer: None, kind: *fd, int: *int, md: *md, armed: false, edge_pending: false, modified_at: 0, rereg_at: 0, cbs: 0, child: ChildSt::Kept, child_pending: ChildSt::Kept })
                 }
                 Some(BadFd::Duplicate) => {
                     // the same fd *number* as a live registration: epoll answers EEXIST
                     let raw = dup_of.unwrap_or(-1);
-                    (FdX::named(raw), FdChild { src_raw: raw, peer: None, kind: *fd, int: *int, md: *md, armed: false, edge_pending: false, modified_at: 0, cbs: 0, child: ChildSt::Kept, child_pending: ChildSt::Kept })
+                    (FdX::named(raw), FdChild { src_raw: raw, peer: None, kind: *fd, int: *int, md: *md, armed: false, edge_pending: false, modified_at: 0, rereg_at: 0, cbs: 0, child: ChildSt::Kept, child_pending: ChildSt::Kept })
                 }
                 Some(BadFd::Closed) => {
                     // a number that is not open: EBADF
                     let e = sysx::eventfd_new();
                     let raw = e.as_raw_fd();
                     drop(e);
-                    (FdX::named(raw), FdChild { src_raw: raw, peer: None, kind: *fd, int: *int, md: *md, armed: false, edge_pending: false, modified_at: 0, cbs: 0, child: ChildSt::Kept, child_pending: ChildSt::Kept })
+                    (FdX::named(raw), FdChild { src_raw: raw, peer: None, kind: *fd, int: *int, md: *md, armed: false, edge_pending: false, modified_at: 0, rereg_at: 0, cbs: 0, child: ChildSt::Kept, child_pending: ChildSt::Kept })
                 }
             };
             child.cbs = 0;
